@@ -8,11 +8,17 @@ a small pool that overlaps the context keys and the variables of enclosing loops
 ordinary cases.
 
 Compared: the event stream FlowParser acts on (row instantiated / row handed to _parse_row with
-its rendered id and text / _parse_block entered with block type and omit flag / group registered
-under the head's id) and the templating context that is left when the sheet has been read —
-plus the ORACLES the property states, evaluated on the implementation alone:
+its rendered id and text / _parse_block entered with block type and omit flag / NodeGroup pushed /
+group registered under the head's id) and the templating context that is left when the sheet has
+been read; the model's DESUGARING of the sheet (Comp/Desugar.v, wire engine 103 — the function the
+unrolling theorem C03_desugar_equiv is about) against the reference desugaring written here from
+Appendix B (reference_desugar) — plus the ORACLES the property states, evaluated on the
+implementation alone:
   * lexical scope: the context after the sheet is exactly the context before it,
-  * nothing inside an excluded block or a loop over nothing is instantiated."""
+  * nothing inside an excluded block or a loop over nothing is instantiated,
+  * the rows handed on are those of the unrolled, lexically scoped reading,
+  * the theorem's own statement: the desugared sheet is accepted from the EMPTY context and
+    FlowParser is handed the same rows and pushes / registers the same groups in the same order."""
 import csv
 import io
 
@@ -163,6 +169,8 @@ def model_run(m, rows, ctx):
             events.append(("row", dec_str(e[1]), dec_str(e[2])))
         elif e[0] == 2:
             events.append(("enter", {0: "root_block", 1: "for", 2: "block"}[e[1]], bool(e[2])))
+        elif e[0] == 4:
+            events.append(("push",))
         else:
             events.append(("end", dec_str(e[1])))
     final = [(dec_str(k), [dec_str(x) for x in v[1]] if v[0] == 1 else dec_str(v[1])) for k, v in o[2]]
@@ -172,6 +180,36 @@ def model_run(m, rows, ctx):
 def model_policies(m):
     o = parse_sexp(m.ask("(8 0)"))
     return dict(scope="restore" if o[0] == 1 else "pop", empty="skip" if o[1] == 1 else "fall-through", tolerant=bool(o[2]))
+
+
+KIND_OF = {0: "for", 1: "endfor", 2: "block", 3: "endblock", 4: "plain"}
+
+
+def model_desugar(m, rows, ctx):
+    """Comp/Desugar.v: desugar (wire engine 103) -> ('ok', [(kind, id, text)]) | ('err', class) | ('notliteral', row) | None"""
+    o = parse_sexp(m.ask(f"(103 1 0 ({' '.join(enc_raw(r) for r in rows)}) {enc_ctx(ctx)})"))
+    if o in ([999998], [999997]):
+        return None
+    if o[0] == 1:
+        return ("err", ERR.get(o[1], str(o[1])))
+    out = []
+    for r in o[1]:
+        kind, inc, rid, text, vs, _it = r
+        if inc != [0] or vs != [] or kind not in (2, 3, 4) or any(sg[0] != 0 for sg in rid + text):
+            return ("notliteral", r)
+        out.append((KIND_OF[kind], "".join(dec_str(sg[1]) for sg in rid), "".join(dec_str(sg[1]) for sg in text)))
+    return ("ok", out)
+
+
+def desugared_csv(des):
+    rows = [dict(kind=k, inc="true", id=[("lit", i)] if i else [], text=[("lit", t)] if t else []) for k, i, t in des]
+    return sheet_csv(rows, [""] * len(rows))
+
+
+def toks(events):
+    """what FlowParser builds from: rows handed to _parse_row, NodeGroups pushed, groups popped and registered under an id"""
+    return [("row", e[1], e[2]) if e[0] == "row" else ("push",) if e[0] == "push" else ("pop", e[1])
+            for e in events if e[0] in ("row", "push", "end")]
 
 
 class Spy:
@@ -220,6 +258,18 @@ class Spy:
         return False
 
 
+class _GroupStack(list):
+    """FlowParser.node_group_stack, observed: a push of a new NodeGroup (begin_for / begin_block that is not skipped)"""
+
+    def __init__(self, items, events):
+        super().__init__(items)
+        self._events = events
+
+    def append(self, x):
+        self._events.append(("push",))
+        super().append(x)
+
+
 def impl_run(csvtext, ctx):
     import tablib
     from rpft.parsers.creation.flowparser import FlowParser
@@ -230,10 +280,12 @@ def impl_run(csvtext, ctx):
     def go():
         fp = FlowParser(RapidProContainer(), "f", tablib.import_set(csvtext, format="csv"), context=dict(ctx))
         box["fp"] = fp
+        fp.node_group_stack = _GroupStack(fp.node_group_stack, box["spy"].events)
         fp._parse_block()
         return fp
 
     with Spy() as spy:
+        box["spy"] = spy
         r = run_cli_mode(go)
     fp = box.get("fp")
     final = None
@@ -302,11 +354,12 @@ class _RefError(Exception):
     pass
 
 
-def reference_rows(rows, cx):
-    """What the property says a (well nested) sugared sheet means: the rows handed on, in order,
-    when every loop is replaced by its body once per element with the loop and index variable
-    substituted (LEXICAL scope: an environment per iteration, the outer one untouched) and
-    excluded rows/blocks are dropped unevaluated.  -> ('ok', [(id, text)]) | ('err', why)"""
+def reference_desugar(rows, cx):
+    """What the property says a (well nested) sugared sheet means — its DESUGARED form: every loop
+    replaced by a block (same rendered row id) holding its body once per element, in order, with
+    the loop and index variable substituted (LEXICAL scope: an environment per iteration, the outer
+    one untouched); rows and blocks whose include_if is false dropped unevaluated; every cell
+    rendered.  -> ('ok', [(kind, id, text)]) with kind in plain/block/endblock | ('err', why)"""
     out = []
 
     def render(segs, env):
@@ -343,13 +396,14 @@ def reference_rows(rows, cx):
             r = rows[i]
             if r["kind"] == "plain":
                 if included(r, env):
-                    out.append((render(r.get("id", []), env), render(r.get("text", []), env)))
+                    out.append(("plain", render(r.get("id", []), env), render(r.get("text", []), env)))
                 i += 1
                 continue
             end = matching_end(i)
             if included(r, env):
-                render(r.get("id", []), env)
+                head = ("block", render(r.get("id", []), env), render(r.get("text", []), env))
                 if r["kind"] == "block":
+                    out.append(head)
                     body(i + 1, end, env)
                 else:
                     it = r["iter"]
@@ -362,12 +416,14 @@ def reference_rows(rows, cx):
                     vs = r.get("vars", [])
                     if not vs or not vs[0]:
                         raise _RefError("no-loop-variable")
+                    out.append(head)
                     for n, e in enumerate(elems):
                         env2 = dict(env)
                         env2[vs[0]] = e
                         if len(vs) > 1 and vs[1]:
                             env2[vs[1]] = str(n)
                         body(i + 1, end, env2)
+                out.append(("endblock", "", ""))      # (generated terminators carry no template)
             i = end + 1
 
     try:
@@ -375,6 +431,12 @@ def reference_rows(rows, cx):
     except _RefError as e:
         return ("err", str(e))
     return ("ok", out)
+
+
+def reference_rows(rows, cx):
+    """the rows handed on, in order, under the unrolled lexically scoped reading -> ('ok', [(id, text)]) | ('err', why)"""
+    r = reference_desugar(rows, cx)
+    return ("ok", [(i, t) for k, i, t in r[1] if k == "plain"]) if r[0] == "ok" else r
 
 
 def well_nested(rows):
@@ -462,6 +524,17 @@ def oracles(ir, before, never, empty, ref=None):
     return out
 
 
+def desugared_oracle(ir, ir2):
+    """ir = the implementation on the sugared sheet (accepted), ir2 = on its desugared form -> list of summaries"""
+    if ir2[0] != "ok":
+        return [f"the sheet is accepted but its desugared form (loops unrolled into blocks, excluded content removed) is rejected ({ir2[1]})"]
+    if toks(ir2[1]) != toks(ir[1]):
+        return [f"FlowParser is handed {toks(ir[1])!r} for the sheet but {toks(ir2[1])!r} for its desugared form"]
+    if ir2[2]:
+        return [f"the desugared sheet leaves {ir2[2]!r} in the empty templating context"]
+    return []
+
+
 def judge(ctx, rows, cx, spell, dist, nontrivial):
     v, m = ctx.v, ctx.model
     csvtext = sheet_csv(rows, spell)
@@ -477,17 +550,38 @@ def judge(ctx, rows, cx, spell, dist, nontrivial):
     ref = reference_rows(rows, cx) if well_nested(rows) else None
     dist["reference_reading_ok"] += bool(ref and ref[0] == "ok")
     rep = dict(fn="blocks", csv=csvtext, ctx=cx, never=never, empty=empty, ref=ref)
+    failed = False
     for summary in oracles(ir, str_ctx(cx), never, empty, ref)[:1]:
         v.failing_input(key, summary, rep)
+        failed = True
+    # ---- the unrolling theorem's statement, on the implementation: the desugared sheet (reference desugaring; it is
+    # compared with the model's below) is accepted from the EMPTY context and FlowParser is handed the same rows and
+    # pushes / registers the same groups in the same order
+    rd = reference_desugar(rows, cx) if well_nested(rows) else None
+    if rd and rd[0] == "ok" and ir[0] == "ok" and not failed and dist["desugared_compiled"] < dist["desugared_budget"]:
+        dist["desugared_compiled"] += 1
+        des_csv = desugared_csv(rd[1])
+        for summary in desugared_oracle(ir, impl_run(des_csv, {}))[:1]:
+            v.failing_input(key, summary, dict(rep, des_csv=des_csv))
     # ---- correspondence
     if not m:
         return
+    md = model_desugar(m, rows, cx)
+    if md is None or md[0] == "notliteral":
+        ctx.disagree("blocks: desugar (model) did not deliver a literal sheet", rep, repr(md), "")
+    elif rd is not None:
+        dist["desugar_vs_reference"] += 1
+        if md != rd:
+            ctx.disagree("blocks: desugar (Comp/Desugar.v) differs from the reference desugaring", rep, repr(md), repr(rd))
     mo = model_run(m, rows, cx)
     if mo is None:
         ctx.disagree("blocks: model rejected the sheet", rep, "BADINPUT", "")
         return
     if mo[0] == "err" and mo[1] == "FUEL":
         return
+    if md is not None and md[0] != "notliteral" and ((md[0] == "ok") != (mo[0] == "ok") or (md[0] == "err" and tuple(md) != tuple(mo[:2]))):
+        # C03_desugar_defined_iff_sheet_accepted / C03_desugar_fails_iff_sheet_fails, on the extracted code
+        ctx.disagree("blocks: desugar defined/failing differently from the model's own reading of the sheet", rep, repr(md), repr(mo[:2]))
     if ir[0] == "err" and ir[1] == "graph":
         dist["graph_error_outside_model"] += 1
         return
@@ -513,7 +607,8 @@ def run(ctx, n):
     """the directed cases, then n generated sheets; returns the set of non-trivial cases"""
     rng = ctx.rng
     dist = {"ok": 0, "err": 0, "graph_error_outside_model": 0, "with_shadowing": 0, "with_empty_loop": 0, "with_excluded_block": 0,
-            "scope_oracle_checked": 0, "reference_reading_ok": 0}
+            "scope_oracle_checked": 0, "reference_reading_ok": 0, "desugar_vs_reference": 0, "desugared_compiled": 0,
+            "desugared_budget": max(60, n * 2 // 5)}
     nontrivial = set()
     if ctx.model:
         ctx.stats["loop_mechanics_of_the_code"] = model_policies(ctx.model)
@@ -531,4 +626,8 @@ def run(ctx, n):
 def replay(r):
     """True when the property's statements hold on this input"""
     ir = impl_run(r["csv"], r["ctx"])
-    return not oracles(ir, str_ctx(r["ctx"]), r.get("never", []), r.get("empty", False), r.get("ref"))
+    if oracles(ir, str_ctx(r["ctx"]), r.get("never", []), r.get("empty", False), r.get("ref")):
+        return False
+    if r.get("des_csv") and ir[0] == "ok":
+        return not desugared_oracle(ir, impl_run(r["des_csv"], {}))
+    return True
